@@ -59,7 +59,7 @@ def run(ctx):
         "samples": [{"class": cl.keys[i], "prefix": d.hex()[:80], "python": r} for i, d, r in meta[:: max(1, len(meta) // 6)][:6]],
     })
     for f in fails[:3]:
-        ctx.violation(f"{f['class']}: {f['what']}", dict(kind="c06", **f))
+        ctx.violation(f"{f['class']}: {f['what']}", {**f, "check": "c06"})
     if disagreements and not fails:
         ctx.broken.append(f"correspondence dec on prefixes: {len(disagreements)}; first: {disagreements[0]}")
 
